@@ -142,7 +142,8 @@ class GroupAdditivityScheme(Scheme):
         groups = self._AssignGroup(mol)
         descriptors = self._AssignDescriptor(mol, clean_mol)
         all_descriptors = groups.copy()
-        all_descriptors.update(descriptors)
+        for name in descriptors:
+            all_descriptors[name] += descriptors[name]
         return all_descriptors
 
     def _AssignCenterPattern(self, mol, debug=0):
